@@ -165,6 +165,10 @@ struct W<F: Flavor> {
     trace: Vec<Ev>,
     ignored_other: u32,
     shared: Option<Arc<Flag>>,
+    /// the observable is (by now) a SharedObservable: its value rules are also C04's (a sequential
+    /// history is a degenerate concurrent one: "every set returns the value stored by its immediate
+    /// predecessor ... every read returns the value of the latest preceding write")
+    is_shared: bool,
     /// handles of a second, unrelated observable (target of clone_from)
     other: Vec<F::S>,
 }
@@ -184,6 +188,14 @@ impl<F: Flavor> W<F> {
         } else {
             vec![C01]
         }
+    }
+    /// rules about returned / read values
+    fn val(&self) -> Vec<Prop> {
+        let mut v = self.sem();
+        if !F::ASYNC && self.is_shared {
+            v.push(C04);
+        }
+        v
     }
     fn wake(&self) -> Vec<Prop> {
         if F::ASYNC {
@@ -365,6 +377,14 @@ impl<F: Flavor> W<F> {
         }
         m.last_was_get = false;
         let mut props = self.sem();
+        if !F::ASYNC && self.is_shared {
+            // C04: "each subscriber observes values in that order ... and ends on the final value"
+            let wrong_value = matches!((&got, &exp), (PollRes::Item(a), PollRes::Item(b)) if a != b);
+            let stuck_behind = got == PollRes::Pending && matches!(exp, PollRes::Item(_));
+            if wrong_value || stuck_behind {
+                props.push(C04);
+            }
+        }
         if got == PollRes::End || exp == PollRes::End {
             props.extend(self.end());
         }
@@ -412,6 +432,9 @@ impl<F: Flavor> W<F> {
     }
 
     fn step(&mut self, op: ObsOp) -> R {
+        if self.owners.iter().flatten().next().is_some() {
+            self.is_shared = self.owners.iter().flatten().all(|o| matches!(**o, Own::S(_)));
+        }
         let hold_ok = self.allow_guards && !F::ASYNC;
         let wheld = self.write_held();
         let rheld = self.read_held();
@@ -432,7 +455,7 @@ impl<F: Flavor> W<F> {
                     self.f.wouldblock += 1;
                     return self.check(blocked, &[C04], || "try_write succeeded while a guard is alive".to_string());
                 }
-                let sem = self.sem();
+                let sem = self.val();
                 let (exp, notifies) = self.model_write(wr);
                 let got = {
                     let own = &mut **self.owners[o].as_mut().unwrap();
@@ -463,7 +486,7 @@ impl<F: Flavor> W<F> {
             ObsOp::GuardWrite { guard, wr } => {
                 let wg: Vec<usize> = self.live_guards().into_iter().filter(|g| matches!(self.guards[*g].as_ref().unwrap().kind, GK::Wr(_))).collect();
                 let Some(gi) = pick(guard, &wg) else { return Ok(()) };
-                let sem = self.sem();
+                let sem = self.val();
                 let (exp, notifies) = self.model_write(wr);
                 let GK::Wr(g) = &mut self.guards[gi].as_mut().unwrap().kind else { unreachable!() };
                 let mk = |k: u8, p: u8| OVal::new(k, p);
@@ -500,7 +523,7 @@ impl<F: Flavor> W<F> {
                     Own::S(s) => F::s_get(s),
                 };
                 let Some(got) = got else { return self.stuck("get") };
-                let (sem, val) = (self.sem(), self.value);
+                let (sem, val) = (self.val(), self.value);
                 self.ev(Ev::V(got), Ev::V(val), &sem, || "get on the observable".to_string())
             }
             ObsOp::CloneOwner(owner) => {
@@ -716,7 +739,7 @@ impl<F: Flavor> W<F> {
                 }
                 let Some(got) = F::sub_get(self.subs[si].as_ref().unwrap()) else { return self.stuck("Subscriber::get") };
                 self.msubs[si].as_mut().unwrap().last_was_get = true;
-                let (sem, val) = (self.sem(), self.value);
+                let (sem, val) = (self.val(), self.value);
                 self.ev(Ev::V(got), Ev::V(val), &sem, || format!("Subscriber::get on {si}"))
             }
             ObsOp::SubRead { sub, hold } => {
@@ -734,7 +757,7 @@ impl<F: Flavor> W<F> {
                     drop(g);
                 }
                 self.msubs[si].as_mut().unwrap().last_was_get = true;
-                let (sem, val) = (self.sem(), self.value);
+                let (sem, val) = (self.val(), self.value);
                 self.ev(Ev::V(got), Ev::V(val), &sem, || format!("Subscriber::read on {si}"))
             }
             ObsOp::NextNow(sub) => {
@@ -747,7 +770,7 @@ impl<F: Flavor> W<F> {
                 m.unseen = false;
                 m.updates_since = 0;
                 m.last_was_get = true;
-                let (sem, val) = (self.sem(), self.value);
+                let (sem, val) = (self.val(), self.value);
                 self.ev(Ev::V(got), Ev::V(val), &sem, || format!("next_now on {si}"))
             }
             ObsOp::NextRefNow { sub, hold } => {
@@ -768,7 +791,7 @@ impl<F: Flavor> W<F> {
                 m.unseen = false;
                 m.updates_since = 0;
                 m.last_was_get = true;
-                let (sem, val) = (self.sem(), self.value);
+                let (sem, val) = (self.val(), self.value);
                 self.ev(Ev::V(got), Ev::V(val), &sem, || format!("next_ref_now on {si}"))
             }
             ObsOp::Poll { sub, via } => {
@@ -828,7 +851,7 @@ impl<F: Flavor> W<F> {
                 } else {
                     drop(g);
                 }
-                let (sem, val) = (self.sem(), self.value);
+                let (sem, val) = (self.val(), self.value);
                 self.ev(Ev::V(got), Ev::V(val), &sem, || "read guard".to_string())
             }
             ObsOp::WriteLock { owner } | ObsOp::TryWrite { owner, .. } => {
@@ -865,7 +888,7 @@ impl<F: Flavor> W<F> {
                 } else {
                     drop(g);
                 }
-                let (sem, val) = (self.sem(), self.value);
+                let (sem, val) = (self.val(), self.value);
                 self.ev(Ev::V(got), Ev::V(val), &sem, || "write guard deref".to_string())
             }
             ObsOp::DropGuard(g) => {
@@ -894,6 +917,7 @@ fn run_flavor<F: Flavor>(case: &ObsCase, prop: Prop) -> R<(CaseReport, OFeat, Ve
         trace: vec![],
         ignored_other: 0,
         shared: if case.shared_waker { Some(Flag::new()) } else { None },
+        is_shared: false,
         other: vec![],
     };
     if case.start_default {
